@@ -34,7 +34,52 @@ func constFormats(p *core.Program, r *core.Report, rule string, floor int, rels 
 			r.OK(rule, cs.In, "format of "+cs.Name+" is a constant", cs.Call.Pos(), "compile-time constant format")
 			continue
 		}
-		if v := core.VarOf(info, fa); v != nil && isParamOf(cs.In.Root(), v) && cs.Call.Ellipsis.IsValid() {
+		if v := core.VarOf(info, fa); v != nil && (isParamOf(cs.In.Root(), v) || isParamOf(cs.In, v)) && cs.Call.Ellipsis.IsValid() {
+			// a forwarding closure or unexported wrapper: every call of it must pass a constant
+			if !cs.In.Root().Decl.Name.IsExported() || cs.In.Lit != nil {
+				okAll, calls := true, 0
+				k2 := paramIndex(cs.In, v)
+				judge := func(ci *types.Info, call *ast.CallExpr) {
+					calls++
+					if k2 < 0 || k2 >= len(call.Args) {
+						okAll = false
+						return
+					}
+					if _, isC := core.ConstString(ci, call.Args[k2]); !isC {
+						okAll = false
+					}
+				}
+				if cs.In.Lit != nil {
+					if lv := litVarOf(cs.In); lv != nil {
+						// a closure bound to a local: its calls are in the function that made it; the variable must not escape
+						ast.Inspect(cs.In.Root().Body, func(m ast.Node) bool {
+							if id, isID := m.(*ast.Ident); isID && info.Uses[id] == types.Object(lv) {
+								up := core.PathTo(cs.In.Root().Body, id)
+								if len(up) >= 2 {
+									if call, isCall := up[len(up)-2].(*ast.CallExpr); isCall && ast.Unparen(call.Fun) == ast.Expr(id) {
+										judge(info, call)
+										return true
+									}
+								}
+								okAll = false
+							}
+							return true
+						})
+					}
+				} else {
+					for _, cc := range allCalls(p) {
+						if core.CalleeFunc(cc.In.Info(), cc.Call) == cs.In.Root().Obj() {
+							judge(cc.In.Info(), cc.Call)
+						}
+					}
+				}
+				if calls > 0 && okAll {
+					r.OK(rule, cs.In, "format of "+cs.Name+" is a constant", cs.Call.Pos(), "the forwarding helper's format parameter; every call of the helper passes a constant")
+					continue
+				}
+			}
+		}
+		if v := core.VarOf(info, fa); v != nil && isParamOf(cs.In.Root(), v) && cs.Call.Ellipsis.IsValid() && cs.In.Lit == nil {
 			r.OK(rule, cs.In, "format of "+cs.Name+" is a constant", cs.Call.Pos(), "the wrapper's own format parameter, forwarded with its arguments")
 			continue
 		}
@@ -109,7 +154,7 @@ func c02R10(p *core.Program, r *core.Report, pl *pipeline) {
 // which token.IsIdentifier accepts and no file can refer to.
 func c03R20(p *core.Program, r *core.Report) {
 	const rule = "R20"
-	r.Floor(rule, 2)
+	r.Floor(rule, 1)
 	n := 0
 	for _, f := range p.Funcs() {
 		if f.Decl == nil || f.Decl.Recv != nil || core.RelPkg(f.Pkg.PkgPath) != "pkg/namer" || f.Obj() == nil {
@@ -345,8 +390,12 @@ func c06R9(p *core.Program, r *core.Report) {
 		root = f.Origin
 	}
 	var gens *types.Var
-	if root.Decl != nil && root.Decl.Type.Params != nil {
-		for _, fld := range root.Decl.Type.Params.List {
+	ftype := f.Type // the view's signature: a parameter object is shown as its fields
+	if ftype == nil && root.Decl != nil {
+		ftype = root.Decl.Type
+	}
+	if ftype != nil && ftype.Params != nil {
+		for _, fld := range ftype.Params.List {
 			for _, nm := range fld.Names {
 				if v, ok := info.ObjectOf(nm).(*types.Var); ok {
 					if sl, isSl := v.Type().Underlying().(*types.Slice); isSl && core.NamedTypeName(sl.Elem()) == core.G("pkg/gengo.Generator") {
@@ -566,4 +615,26 @@ func c10R17(p *core.Program, r *core.Report, f *core.Func, armOf map[string]*ast
 	if n == 0 {
 		r.Anchor(rule, "the recursive call for a field in the struct arm's loop")
 	}
+}
+
+// litVarOf: the local variable a function literal is bound to (`w := func(...) {…}`), or nil.
+func litVarOf(f *core.Func) *types.Var {
+	if f.Lit == nil || f.Parent == nil {
+		return nil
+	}
+	info := f.Info()
+	var out *types.Var
+	ast.Inspect(f.Root().Body, func(m ast.Node) bool {
+		as, ok := m.(*ast.AssignStmt)
+		if !ok || len(as.Lhs) != len(as.Rhs) {
+			return true
+		}
+		for i, rh := range as.Rhs {
+			if ast.Unparen(rh) == ast.Expr(f.Lit) {
+				out = core.VarOf(info, as.Lhs[i])
+			}
+		}
+		return true
+	})
+	return out
 }
